@@ -126,7 +126,7 @@ def chunk_block_freshness(repo: Repo, rep, P: str, rule: str):
 # ------------------------------------------------------------------------------------ R1
 def unknown_ids(repo: Repo, rep, P: str):
     rd = repo.cls("Reader", module="rv.readers.reader")
-    fn = repo.own_method(rd, "process_chunks")
+    fn = inline.normalize(repo, rd, repo.own_method(rd, "process_chunks"))
     rel = rd.file.rel
     construct = f"{rel}:Reader.process_chunks"
     rep.func("rv.readers.reader.Reader.process_chunks")
@@ -212,7 +212,7 @@ def unknown_ids(repo: Repo, rep, P: str):
             rep.ok(f"{P}.R1", construct, f"{hv}(data)", "every chunk with a handler is handed to it")
     # handler name derivation
     src = norm(fn)
-    verdict = _handler_lookup(fn)
+    verdict = _handler_lookup(inline.fold_module_names(repo, rd.file, fn, ci=rd))
     if verdict is None:
         rep.ok(f"{P}.R1", construct, "getattr(self, 'process_' + id.decode().strip(), None)", "4-byte ids with trailing blanks (e.g. 'BPM ') find their handler")
     elif verdict.startswith("!"):
@@ -229,7 +229,8 @@ def unknown_ids(repo: Repo, rep, P: str):
                       f"{rel}:{fn.lineno}")
     # ReaderFinished ends the section silently; end of stream calls process_end_of_file
     handlers = [n for n in ast.walk(fn) if isinstance(n, ast.ExceptHandler)]
-    if any(h.type is not None and norm(h.type) == "ReaderFinished" and all(isinstance(s, ast.Pass) for s in h.body) for h in handlers) \
+    if any(h.type is not None and norm(h.type) == "ReaderFinished" and all(isinstance(s, ast.Pass) or (isinstance(s, ast.Return) and s.value is None)
+                                                                          for s in h.body) for h in handlers) \
             and "self.process_end_of_file()" in src:
         rep.ok(f"{P}.R1", construct, "except ReaderFinished: pass; process_end_of_file() after the loop")
     else:
@@ -295,6 +296,17 @@ def _chunk_iterator(repo: Repo, cf: ast.FunctionDef) -> str:
         for k in call.keywords:
             if k.arg in opts:
                 opts[k.arg] = repo.fold(k.value)
+            elif k.arg is None:
+                # Chunk(f, **LAYOUT) with LAYOUT a constant dict of the module
+                d = inline.definition_of(repo, None, repo.module("rv.lib.iff"), k.value) if isinstance(k.value, (ast.Name, ast.Attribute)) else k.value
+                if isinstance(d, ast.Call) and norm(d.func) == "dict" and not d.args:
+                    d = ast.Dict(keys=[ast.Constant(value=kk.arg) for kk in d.keywords], values=[kk.value for kk in d.keywords])
+                if not isinstance(d, ast.Dict):
+                    return "?Chunk options not constant"
+                for kk, vv in zip(d.keys, d.values):
+                    key = repo.fold(kk)
+                    if key in opts:
+                        opts[key] = repo.fold(vv)
     except (NotConst, IndexError):
         return "?Chunk options not constant"
     if not call.args or norm(call.args[0]) != fparam:
@@ -332,7 +344,7 @@ def _handler_lookup(fn: ast.FunctionDef) -> Optional[str]:
     from ..codec import subst
     defs: Dict[str, ast.expr] = {}
     order = [n for n in walk_no_nested(fn) if isinstance(n, ast.Assign) and len(n.targets) == 1 and isinstance(n.targets[0], ast.Name)]
-    order.sort(key=lambda n: (n.lineno, n.col_offset))
+    order.sort(key=lambda n: inline.pos(n))
     look = None
     for n in walk_no_nested(fn):
         if isinstance(n, ast.Call) and norm(n.func) == "getattr" and len(n.args) >= 2 and norm(n.args[0]) == "self":
@@ -344,7 +356,7 @@ def _handler_lookup(fn: ast.FunctionDef) -> Optional[str]:
     # resolve the name expression through local definitions (last definition before the look-up wins)
     env: Dict[str, ast.expr] = {}
     for a in order:
-        if (a.lineno, a.col_offset) < (look.lineno, look.col_offset):
+        if inline.pos(a) < inline.pos(look):
             t = a.targets[0].id
             env[t] = subst(a.value, {k: v for k, v in env.items() if k != t} | ({t: env[t]} if t in env else {}))
     e = subst(look.args[1], env)
